@@ -136,6 +136,7 @@ func TestVerifC15(t *testing.T) {
 	})
 	defer verifhook.SetPoint(nil)
 	nseq := r.N(120, 5000)
+	tStart := time.Now()
 	for si := 0; si < nseq; si++ {
 		delay.Store(si%3 == 0)
 		cur := c15Set{}
@@ -214,6 +215,19 @@ func TestVerifC15(t *testing.T) {
 					}
 				}
 			}
+			if rng.IntN(5) == 0 && len(clients) > 0 {
+				// targeted: a live path created from a regular-expression / catch-all configuration is captured by a new
+				// static configuration of its own name with the same non-reloadable settings (the path must survive, and
+				// from then on it is the path of a static configuration)
+				c := clients[rng.IntN(len(clients))]
+				if on, _, ok := cur.resolve(c.name); ok && on != c.name {
+					cand := cur.clone()
+					t2 := cur[on]
+					t2.Forward = (t2.Forward + 1) % 3
+					cand[c.name] = t2
+					next, what = cand, "capture:"+c.name+":"+on+"->static(aligned)"
+				}
+			}
 			steps = append(steps, what)
 			// expected survival of every client path across this step
 			for _, c := range clients {
@@ -248,6 +262,9 @@ func TestVerifC15(t *testing.T) {
 			problem, sig = c15Check(e, cur)
 			if problem == "" || time.Now().After(deadline) {
 				break
+			}
+			if sig == "path-stale-capture-groups" && time.Now().After(deadline.Add(-2500*time.Millisecond)) {
+				break // capture groups are never refreshed (recorded finding): half a second of persistence is enough
 			}
 			time.Sleep(2 * time.Millisecond)
 		}
@@ -286,17 +303,74 @@ func TestVerifC15(t *testing.T) {
 				c.pub.remove()
 			}
 		}
+		// the clients have left: paths of static configurations stay (whatever configuration created them), the others may go
+		if problem == "" || sig == "path-stale-capture-groups" {
+			deadline = time.Now().Add(3 * time.Second)
+			for {
+				e.barrier()
+				problem, sig = c15Check2(e, cur, true)
+				if problem == "" || time.Now().After(deadline) {
+					break
+				}
+				time.Sleep(2 * time.Millisecond)
+			}
+			if problem != "" {
+				r.Violation(sig+":after-clients-left", fmt.Sprintf("after reload steps %v and after every client left (final configuration:\n%s): %s", steps, cur.yaml(), problem), wit)
+			}
+		}
 		e.close()
 		if r.Violations() > 8 {
 			break
 		}
 	}
-	r.Finish("real pathManager with live stub publishers/readers on static, regex (several with different capture groups) and catch-all configurations; sequences of 1..5 reloads (hot-reloadable change = forward list / recordDeleteAfter, non hot-reloadable = maxReaders, configuration removed, configuration added incl. copies that let a path move between configurations), one third back-to-back without waiting, hook delay at the entry of the per-path reload goroutine. At quiescence (manager+path barrier, then only a persisting mismatch counts): every static configuration has a live path; every live path's name resolves; its configuration Equal()s the resolved one; confName and capture groups are the resolved ones; a path with live clients keeps its identity and clients iff every step changed only hot-reloadable fields of its resolved configuration. non-trivial = sequence with >= 2 steps and live clients",
+	r.Count("main_loop_ms", time.Since(tStart).Milliseconds())
+	// bursts: several hot reloads of one live path delivered back to back; the path must settle on the last one
+	nburst := r.N(60, 3000)
+	for bi := 0; bi < nburst && r.Violations() <= 8; bi++ {
+		delay.Store(bi%2 == 0)
+		mk := func(d int) c15Set { return c15Set{"cam": c15Conf{DeleteAfter: d, Forward: d % 3}, "all_others": c15Conf{DeleteAfter: 1}} }
+		e := wbStart(t, mk(1).yaml())
+		pub := e.newPub("P-burst")
+		if pub.add("cam") != nil {
+			e.close()
+			continue
+		}
+		k := 2 + rng.IntN(4)
+		var confs []map[string]*conf.Path
+		last := mk(1)
+		for j := 0; j < k; j++ {
+			last = mk(2 + (bi+j)%7)
+			confs = append(confs, wbLoadConf(t, e.dir, last.yaml()).Paths)
+		}
+		for _, pc := range confs {
+			e.pm.ReloadPathConfs(pc)
+		}
+		var problem, sig string
+		deadline := time.Now().Add(3 * time.Second)
+		for {
+			e.barrier()
+			problem, sig = c15Check(e, last)
+			if problem == "" || time.Now().After(deadline) {
+				break
+			}
+			time.Sleep(2 * time.Millisecond)
+		}
+		r.Eval(fmt.Sprintf("burst|%d|%d", bi, k))
+		if problem != "" {
+			r.Violation(sig+":burst", fmt.Sprintf("after %d hot reloads of a live path delivered back to back: %s", k, problem), nil)
+		}
+		pub.remove()
+		e.close()
+	}
+	r.Finish("real pathManager with live stub publishers/readers on static, regex (several with different capture groups) and catch-all configurations; sequences of 1..5 reloads (hot-reloadable change = forward list / recordDeleteAfter, non hot-reloadable = maxReaders, configuration removed, configuration added incl. copies that let a path move between configurations), one third back-to-back without waiting, hook delay at the entry of the per-path reload goroutine. At quiescence (manager+path barrier, then only a persisting mismatch counts): every static configuration has a live path; every live path's name resolves; its configuration Equal()s the resolved one; confName and capture groups are the resolved ones; a path with live clients keeps its identity and clients iff every step changed only hot-reloadable fields of its resolved configuration; the same state check is repeated after every client has left (paths of static configurations must remain); plus bursts of 2..5 hot reloads of one live path delivered back to back (the path must settle on the last one). non-trivial = sequence with >= 2 steps and live clients",
 		"the hot-reloadable field list is the documented one (forward, record*, rpiCamera live controls); the harness varies forward / recordDeleteAfter (hot) and maxReaders (not hot)")
 }
 
 // c15Check compares the live white-box state with the reference resolution of cur.
-func c15Check(e *wbEnv, cur c15Set) (string, string) {
+func c15Check(e *wbEnv, cur c15Set) (string, string) { return c15Check2(e, cur, false) }
+
+// c15Check2 with skipGroups leaves the capture-group comparison out (used after that class has been reported).
+func c15Check2(e *wbEnv, cur c15Set, skipGroups bool) (string, string) {
 	c := wbLoadConf(e.t, e.dir, cur.yaml())
 	live := e.livePaths()
 	for name := range cur {
@@ -320,7 +394,7 @@ func c15Check(e *wbEnv, cur c15Set) (string, string) {
 		if pa.confName != rn {
 			return fmt.Sprintf("live path %q is filed under configuration %q, resolution selects %q", name, pa.confName, rn), "path-wrong-confname"
 		}
-		if fmt.Sprintf("%q", pa.matches) != fmt.Sprintf("%q", groups) {
+		if !skipGroups && fmt.Sprintf("%q", pa.matches) != fmt.Sprintf("%q", groups) {
 			return fmt.Sprintf("live path %q holds capture groups %q, resolution of its name against %q gives %q", name, pa.matches, rn, groups), "path-stale-capture-groups"
 		}
 	}
